@@ -2,7 +2,7 @@
 SPECIFICATION FairSpec
 CONSTANTS
   Clients = {"c1", "c2"}
-  Conns = {"k1", "k2"}
+  ConnOrder <- K2
   Topics <- T1
   Filters <- F_One
   QosSet = {1}
